@@ -256,6 +256,21 @@ def run_sharded(driver, cases, drv_bin, rundir, shards=None, impl_env=None, time
                 f.write("E\n")
         files.append(p)
 
+    MAXOUT = 400 * 1024 * 1024
+
+    def run_to_file(cmd, env, outp):
+        with open(outp, "wb") as fo:
+            p = subprocess.run(cmd, stdout=fo, stderr=subprocess.PIPE, env=env, timeout=timeout)
+        sz = os.path.getsize(outp)
+        with open(outp, "rb") as fi:
+            data = fi.read(MAXOUT)
+        os.unlink(outp)
+        rc = p.returncode
+        err = p.stderr.decode("utf-8", "replace")[-2000:]
+        if sz > MAXOUT:
+            rc, err = 99, "output of %d bytes truncated" % sz
+        return rc, data.decode("utf-8", "replace"), err
+
     def run_impl_f(i):
         wd = os.path.join(rundir, "w%d" % i)
         os.makedirs(wd, exist_ok=True)
@@ -264,14 +279,12 @@ def run_sharded(driver, cases, drv_bin, rundir, shards=None, impl_env=None, time
         env["RUST_BACKTRACE"] = "0"
         if impl_env:
             env.update(impl_env)
-        p = subprocess.run([drv_bin, driver, files[i], wd] + (impl_args or []), stdout=subprocess.PIPE,
-                           stderr=subprocess.PIPE, env=env, timeout=timeout)
-        return p.returncode, p.stdout.decode("utf-8", "replace"), p.stderr.decode("utf-8", "replace")[-2000:]
+        return run_to_file(["prlimit", "--as=8000000000", drv_bin, driver, files[i], wd] + (impl_args or []), env,
+                           os.path.join(rundir, "impl-%d.out" % i))
 
     def run_mod(i):
-        p = subprocess.run([MODELRUN, model_driver or driver, files[i]], stdout=subprocess.PIPE,
-                           stderr=subprocess.PIPE, timeout=timeout)
-        return p.returncode, p.stdout.decode("utf-8", "replace"), p.stderr.decode("utf-8", "replace")[-2000:]
+        return run_to_file([MODELRUN, model_driver or driver, files[i]], dict(os.environ),
+                           os.path.join(rundir, "model-%d.out" % i))
 
     impl, model, errs = {}, {}, []
     with ThreadPoolExecutor(max_workers=NCPU) as ex:
